@@ -7,6 +7,7 @@
    and this module checks them against RandomSource (real word size, BigNat arithmetic), the generator table and
    the ChaCha20-IETF definition of the deterministic generator. *)
 EXTENDS RandomSource, BigNat, ChaCha, Codec, Json, IOUtils
+XC == INSTANCE X25519
 Tr == ndJsonDeserialize(IOEnv.TRACE)
 VARIABLE l
 tvars == <<vars, l>>
@@ -55,14 +56,16 @@ GenOK(r) ==
   /\ r.repeat_equal                       \* replaying the same bytes reproduces the same output
   /\ (r.sensitive \/ r.api = "pwhash_raw") \* other bytes give another output: the secret is derived from the source
   /\ CASE r.api \in IdentityGens -> r.reqs = <<Size(r.api)>> /\ r.out = r.served
-       [] r.api \in {"box_keypair", "box_xchacha_keypair", "kx_keypair"} -> r.reqs = <<32>> /\ r.out = r.served
+       \* secret key = the served bytes, public key = X25519 of it on the base point (RFC 7748)
+       [] r.api \in {"box_keypair", "box_xchacha_keypair", "kx_keypair"} ->
+            r.reqs = <<32>> /\ SubSeq(r.out, 1, 32) = r.served /\ SubSeq(r.out, 33, 64) = XC!X25519Base(r.served)
        [] r.api = "sign_keypair" -> r.reqs = <<32>> /\ SubSeq(r.out, 1, 32) = r.served
        [] r.api \in {"ed25519_scalar_random", "ristretto255_scalar_random"} ->
             LET x == ScalarRandom(r.served) IN
             /\ r.reqs = [i \in 1..x.attempts |-> 32] /\ x.acceptedAtLast /\ r.out = x.out
        [] r.api = "ed25519_random" -> r.reqs = <<32>>
        [] r.api = "ristretto255_random" -> r.reqs = <<64>>
-       [] r.api = "secretstream_init_push" -> r.reqs = <<24>> /\ r.out = r.served
+       [] r.api = "secretstream_init_push" -> r.reqs = <<24>> /\ SubSeq(r.out, 1, 24) = r.served
        [] r.api = "box_seal" -> r.reqs = <<32>>
        [] r.api \in {"pwhash_str", "pwhash_argon2i_str"} ->
             /\ Len(r.reqs) >= 1 /\ r.reqs[1] = 16       \* the salt; further requests may only pre-fill buffers
